@@ -210,6 +210,13 @@ pub struct StreamScenario {
     /// flush, as the shipped WebSocket adaptor does (tokio executor only)
     #[serde(default)]
     pub buffered: bool,
+    /// further calls of the verify_version setter before the session starts (the last one must
+    /// equal `verify_version`): the gate follows the latest call
+    #[serde(default)]
+    pub gate_calls: Vec<bool>,
+    /// run with a tracing subscriber that enables every span and event (thread-scoped)
+    #[serde(default)]
+    pub trace: bool,
     pub ops: Vec<AppOp>,
 }
 
